@@ -9,6 +9,8 @@ CONSTANTS
  PerCont = {}
  MaxExpire = 0
  MaxKill = 0
+ HelpKinds = {}
+ Ext = {}
  MaxPad = 0
  SymFirst = FALSE
  Defects = {}
